@@ -101,7 +101,7 @@ def registerTree (req : List Name) (s : St) (n alias : Name) (mtime : Int) (tree
   let s := if s.failed.contains n then
       { s with failed := s.failed.del n, processed := s.processed.del n } else s
   let s := { s with queue := s.queue ++ imports }
-  if alias ∈ req ∧ name ∉ s.canonical then { s with canonical := s.canonical ++ [name] } else s
+  if (n ∈ req ∨ alias ∈ req) ∧ name ∉ s.canonical then { s with canonical := s.canonical ++ [name] } else s
 
 /-- `for mibTree in mibTrees: …`; `none` = the symbol pass raised on some tree -/
 def symTrees (c : Cfg) (req : List Name) (n alias : Name) (mtime : Int) :
